@@ -239,20 +239,22 @@ func main() {
 	}
 
 	np := len(m0) * (len(m0) + 1) / 2
+	// thorough parts are capped at 30 minutes each; a part that hits the cap reports exhaustive:false (exit 0)
+	cap30 := 30 * time.Minute
 	// Part 1: callback seam, 2 threads, 1 query each, all trees. Sharded over processes (GOMAXPROCS=1 each: hand-offs are cheap).
 	b1 := ev.Pick(r, 2, 3)
 	st := r.ExploreSharded("callback-2threads", fmt.Sprintf("%d trees x %d unordered query pairs, all schedules with <= %d preemptions at callback granularity", len(trees), np, b1),
-		mc.Opts{MaxDev: -1, NewLocal: newLocal}, 16, driver(false, 2, 1, b1, nil))
+		mc.Opts{MaxDev: -1, NewLocal: newLocal, Deadline: cap30}, 16, driver(false, 2, 1, b1, nil))
 	collect(st)
 	// Part 2: statement seam (instrumented quadtree); the yield hook is process-global, hence processes.
 	b2 := ev.Pick(r, 1, 2)
 	lim2 := ev.Pick(r, 2, 4)
 	st = r.ExploreSharded("statement-2threads", fmt.Sprintf("trees with <= %d nodes x %d unordered query pairs, all schedules with <= %d preemptions at statement granularity", lim2, np, b2),
-		mc.Opts{MaxDev: -1, NewLocal: newLocal}, 16, driver(true, 2, 1, b2, func(n int) bool { return n <= lim2 }))
+		mc.Opts{MaxDev: -1, NewLocal: newLocal, Deadline: cap30}, 16, driver(true, 2, 1, b2, func(n int) bool { return n <= lim2 }))
 	collect(st)
 	if !r.Quick() {
 		st = r.ExploreSharded("callback-3threads-2queries", "2..3 threads x 1..2 queries each, <= 2 preemptions, trees with <= 3 nodes",
-			mc.Opts{MaxDev: -1, NewLocal: newLocal}, 16, driver(false, 3, 2, 2, func(n int) bool { return n <= 3 }))
+			mc.Opts{MaxDev: -1, NewLocal: newLocal, Deadline: cap30}, 16, driver(false, 3, 2, 2, func(n int) bool { return n <= 3 }))
 		collect(st)
 		st = r.ExploreSharded("statement-unbounded-small", "trees with <= 2 nodes, 2 threads, every interleaving at statement granularity (no preemption bound)",
 			mc.Opts{MaxDev: -1, NewLocal: newLocal, Deadline: 20 * time.Minute}, 16, driver(true, 2, 1, -1, func(n int) bool { return n <= 2 }))
